@@ -412,6 +412,7 @@ func executeC20(scn *Scenario) *RunResult {
 		}
 		resolveSweep(&scn.Strat, c.Readers, refs)
 		refBytes, _ := safeMarshal(twin)
+		featuresOf(refBytes).probes(res.Counters)
 		other := priorStreamFor2(enc)
 		srng := NewRng(scn.RunSeed ^ 0xc20)
 
